@@ -561,6 +561,11 @@ func (s *Sim) quiescent(op Op) {
 		s.freeze("step")
 		s.shim.mu.Unlock()
 	}
+	for _, e := range evs {
+		if e.Kind == "new" {
+			s.everBound++ // allocations the core announced as bound (whatever kind of step, also under the live loops)
+		}
+	}
 	nv := len(s.violations)
 	s.runOracles(op, evs, preds)
 	s.noteState()
